@@ -168,12 +168,12 @@ def _process_step_expression(
             return (new_target_assets, None)
 
         case 'subType':
-            new_target_assets = []
-            for target_asset in target_assets:
-                (assets, _) = _process_step_expression(
-                    lang_graph, model, target_assets,
-                    step_expression['stepExpression'])
-                new_target_assets.extend(assets)
+            # Evaluate the inner expression once for all of the targets (not
+            # once per target with all of the targets each time, which
+            # repeats every result as many times as there are targets).
+            (new_target_assets, _) = _process_step_expression(
+                lang_graph, model, target_assets,
+                step_expression['stepExpression'])
 
             selected_new_target_assets = []
             for asset in new_target_assets:
